@@ -1021,7 +1021,7 @@ PLAN = {
     "C11": [("evt", 60, 700), ("mixed", 60, 700), ("hold", 40, 400), ("sched", 30, 300), ("list", 20, 200), ("report", 30, 300)],
     "C12": [("sched", 100, 1200), ("mixed", 30, 300)],
     "C13": [("evt", 100, 1200), ("mixed", 40, 400), ("hold", 20, 200), ("mutex", 30, 300)],
-    "C14": [("hold", 100, 1200), ("holdtick", 10, 100), ("mixed", 40, 400)],
+    "C14": [("hold", 100, 1200), ("holdtick", 10, 100), ("mixed", 40, 400), ("mutex", 30, 300)],
     "C15": [("mixed", 60, 700), ("evt", 50, 500), ("lines", 30, 300), ("hold", 20, 200), ("list", 10, 100)],
     "C16": [("mutex", 100, 1200), ("mixed", 40, 400)],
     "C17": [("mutex", 60, 600), ("evt", 40, 400)],
